@@ -84,8 +84,11 @@ def h_correct(locus, tid, i, j, preset, shape, strategy=None):
             read = [read[0], (read[1][0] + cut, read[1][1])] + read[2:]
             g.add(read[1][0] + 5 <= read[1][1])
         elif shape in ("misplaced_last", "misplaced_first") and len(read) >= 3:
-            # the terminal exon aligned 60-200 bp further out, with (almost) its annotated length: the assigner calls it a misaligned terminal exon
-            off, dl = g.int("terminal_exon_offset", 60, 200), g.int("terminal_exon_length_difference", -8, 8)
+            # the terminal exon aligned further out (not overlapping its annotated place), with (almost) its annotated length: the assigner
+            # calls it a misaligned terminal exon
+            dl = g.int("terminal_exon_length_difference", -8, 8)
+            tl = (exons[-1][1] - exons[-1][0]) if shape == "misplaced_last" else (exons[0][1] - exons[0][0])
+            off = g.int("terminal_exon_offset", tl + 20, tl + 200)
             if shape == "misplaced_last":
                 a_ = exons[-1][0] + off
                 read = read[:-1] + [(a_, a_ + (exons[-1][1] - exons[-1][0]) + dl)]
